@@ -25,8 +25,9 @@
 (*    the preserved addresses (sets: listing them is the same thing).      *)
 (*                                                                         *)
 (* Don't-care regions (either outcome accepted):                           *)
-(*  - an invalid host-bit value in the config file that the command line   *)
-(*    overrides with a valid one (MayReject): reject, or decide normally;  *)
+(*  - an unusable value in the config file (host bits out of range, empty  *)
+(*    input/output) that the command line overrides with a usable one      *)
+(*    (MayReject): reject, or decide normally;                             *)
 (*  - the exit status / exception type of a rejection (any abnormal        *)
 (*    completion) and the completion status of a NoOutput run;             *)
 (*  - outputs of runs without a salt are not compared (random salt);       *)
@@ -90,8 +91,10 @@ Reasons(v) ==
   \cup (IF Given(v, "d") /\ ~On(v, "a") THEN {"dump-without-ip-anonymization"} ELSE {})
   \cup (IF HbBad(Eff(v, "hb")) THEN {"host-bits-out-of-range"} ELSE {})
 MustReject(v) == Reasons(v) # {}
-\* don't-care: invalid config-file host bits overridden by a valid command-line value
-MayReject(v)  == MustReject(v) \/ HbBad(v.cfg["hb"])
+\* don't-care: an unusable config-file value (host bits out of range, empty
+\* input/output) that the command line overrides with a usable one - an
+\* implementation may validate each source on its own
+MayReject(v)  == MustReject(v) \/ HbBad(v.cfg["hb"]) \/ v.cfg["i"] = "EMPTY" \/ v.cfg["o"] = "EMPTY"
 AnyAnon(v)    == On(v, "a") \/ On(v, "p") \/ On(v, "u") \/ Given(v, "w") \/ Given(v, "n")
 Decision(v)   == IF MustReject(v) THEN "Reject" ELSE IF ~AnyAnon(v) THEN "NoOutput" ELSE "Run"
 
